@@ -48,4 +48,18 @@ TEXTS['C17'] = {
     'technique': "Lean 4 proof (case analysis + induction over op sequences) + sequential and scheduled correspondence",
 }
 
+TEXTS['C15'] = {
+    'text': "Finite and complete: for every allowed argument name of every transfer method and every mode, `decide` over the "
+            "tables regenerated from the source and from the installed botocore S3 model proves forwarded <=> accepted (stated "
+            "exceptions: copy-source -> HeadObject mapping, full-object checksums never on UploadPart, CRC32 default), that "
+            "nothing unknown is forwarded, and general theorems about get_filtered_dict / validation / checksum defaults for "
+            "arbitrary dictionaries. The wiring (which table filters which call) is tied to the code by end-to-end kwargs "
+            "correspondence for every name, random subsets, in single/multipart/ranged modes, modern and legacy front ends. "
+            "Partial for the legacy multipart upload: D10 (nothing forwarded to CompleteMultipartUpload) is a recorded finding; "
+            "the process-pool routing is proved on the model and exercised under C19.",
+    'note': COMMON_NOTE + "The installed botocore service model defines 'the operation accepts a parameter of that name'. "
+            "Defects D6, D7 were found by this check and repaired (commits b0364d5, 655e0f9); D10 is recorded.",
+    'technique': "Lean 4 proof (decide +kernel over generated finite tables + list lemmas) + end-to-end kwargs correspondence",
+}
+
 NOT_APPLICABLE = []
